@@ -2,6 +2,7 @@
 from __future__ import annotations
 
 import itertools
+import re
 import os
 
 from ..core import CaseStage, fresh_dir, h8, seed_slice
@@ -225,6 +226,98 @@ def run_glue(case, agg):
                 agg.ok(key, f"ok:{path}", sample={"VERSION": vd, "seq": seq, "version": ver, "list": lst} if (t == 1 and ei == 3) else None)
 
 
+UNQUOTED = ["2", "10", "1.5", "1.9", "1.10", "1.20", "2.50", "2.5", "1.0", "0.1", "1.2.3", "1.10.0", "3.0-rc.1", "007", "1_0", "0x10", "1e1", ".5"]
+
+
+def run_unquoted(case, agg):
+    """the version text written WITHOUT quotes in a YAML / JSON description (where 1.10 is a number to the loader): the
+    description is refused, or the encoded list is the one the text denotes - never a silently different version"""
+    from .. import impl, refcbor
+    from suit_generator import cmd_create
+    text, fmt = case["text"], case["fmt"]
+    is_supported = re.fullmatch(r"[0-9]+(\.[0-9]+)*(-(alpha|beta|rc)(\.[0-9]+)?)?", text) is not None
+    with fresh_dir("c20y") as d:
+        inp, out = os.path.join(d, "in." + fmt), os.path.join(d, "o.suit")
+        if fmt == "yaml":
+            body = ("SUIT_Envelope_Tagged:\n  suit-authentication-wrapper:\n    SuitDigest:\n      suit-digest-algorithm-id: cose-alg-sha-256\n"
+                    "  suit-manifest:\n    suit-manifest-version: 1\n    suit-manifest-sequence-number: 1\n    suit-common: {}\n"
+                    f"    suit-current-version: {text}\n")
+        else:
+            body = ('{"SUIT_Envelope_Tagged": {"suit-authentication-wrapper": {"SuitDigest": {"suit-digest-algorithm-id": "cose-alg-sha-256"}}, '
+                    '"suit-manifest": {"suit-manifest-version": 1, "suit-manifest-sequence-number": 1, "suit-common": {}, '
+                    f'"suit-current-version": {text}}}}}}}')
+        open(inp, "w").write(body)
+        try:
+            cmd_create.main(input_file=inp, output_file=out, input_format="AUTO")
+            data = open(out, "rb").read()
+        except Exception as e:
+            agg.rej(h8("c20y", case), f"refused:{fmt}", nontrivial=True)
+            return
+    env, raw = impl.envelope_members(data)
+    man = refcbor.decode(env.get(3).value)
+    item = man.get(6)
+    got = refcbor.to_py(refcbor.decode(item.value) if item.kind == "bstr" else item)
+    if not is_supported:
+        agg.viol("C20:unquoted/unsupported-accepted", f"{fmt}: `suit-current-version: {text}` (not a supported version text) was accepted and encoded as {got}")
+        return
+    head, _, pre = text.partition("-")
+    want = [int(x) for x in head.split(".")]
+    if pre:
+        lab, _, num = pre.partition(".")
+        want += [{"alpha": -3, "beta": -2, "rc": -1}[lab]] + ([int(num)] if num else [])
+    if list(got) != want:
+        agg.viol("C20:unquoted/other-version-encoded", f"{fmt}: `suit-current-version: {text}` written without quotes was accepted and encoded as {list(got)}; the text denotes {want}")
+    else:
+        agg.ok(h8("c20y", case), f"ok:{fmt}", sample=case if text == "1.2.3" else None)
+
+
+def override_cases(tier):
+    return [{"M": M, "m": m, "p": p, "t": t, "arv": arv, "ars": ars, "other": other, "via": via}
+            for (M, m, p) in ((0, 0, 1), (1, 2, 3), (2, 255, 0), (255, 0, 255)) for t in (None, 0, 7)
+            for arv in (None, "9.8.7-rc.2", "4.5") for ars in (None, "4242", "0") for other in (False, True) for via in ("dict", "file")]
+
+
+def run_override(case, agg):
+    """VERSION files that also carry the override keys: an explicit APP_ROOT_SEQ_NUM is used as given; WITHOUT one the
+    sequence number still follows (major, minor, patch, tweak) - whatever other keys (APP_ROOT_VERSION, versions of other
+    manifests) the file has; DEFAULT_VERSION is the override if there is one"""
+    from ncs import build
+    V = _conv()
+    M, m, p, t = case["M"], case["m"], case["p"], case["t"]
+    vd = _version_dict(M, m, p, t, None)
+    if case["arv"] is not None:
+        vd["APP_ROOT_VERSION"] = case["arv"]
+    if case["ars"] is not None:
+        vd["APP_ROOT_SEQ_NUM"] = case["ars"]
+    if case["other"]:
+        vd.update({"APP_LOCAL_1_VERSION": "7.7.7", "APP_LOCAL_1_SEQ_NUM": "77", "NORDIC_TOP_VERSION": "3.3.3", "RAD_LOCAL_1_SEQ_NUM": "5"})
+    try:
+        if case["via"] == "file":
+            with fresh_dir("c20o") as d:
+                f = os.path.join(d, "VERSION")
+                with open(f, "w") as fh:
+                    fh.write("".join(f"{k} = {v}\n" for k, v in vd.items()))
+                res = dict(build.read_version_file(f))
+        else:
+            cfg = {"VERSION": dict(vd)}
+            build.append_default_version_values(cfg)
+            res = cfg["VERSION"]
+        seq, ver = int(res["DEFAULT_SEQ_NUM"]), res["DEFAULT_VERSION"]
+        lst = V.from_obj(ver).to_obj()
+    except Exception as e:
+        agg.viol(f"C20:glue/override/failed/{type(e).__name__}", f"{vd}: {type(e).__name__}: {e}")
+        return
+    want_seq = int(case["ars"]) if case["ars"] is not None else (M << 24) + (m << 16) + (p << 8) + (t or 0)
+    want_ver = case["arv"] if case["arv"] is not None else f"{M}.{m}.{p}"
+    if seq != want_seq:
+        agg.viol("C20:glue/override/sequence-number", f"{vd}: DEFAULT_SEQ_NUM {seq}, expected {want_seq} "
+                 f"({'the explicit APP_ROOT_SEQ_NUM' if case['ars'] is not None else 'the order-preserving value of the version fields'})")
+    elif ver != want_ver or lst != V.from_obj(want_ver).to_obj():
+        agg.viol("C20:glue/override/version", f"{vd}: DEFAULT_VERSION {ver!r} -> {lst}, expected {want_ver!r}")
+    else:
+        agg.ok(h8("c20o", case), f"ok:{case['via']}", sample=case if case["arv"] and not case["ars"] and case["t"] == 7 and case["via"] == "file" and case["other"] else None)
+
+
 def run_seq_order(case, agg):
     """All ordered pairs of (major, minor, patch, tweak) tuples: tuple order <=> sequence-number order, strictly."""
     from ncs import build
@@ -256,6 +349,10 @@ def plan(tier):
         CaseStage("unsupported-labels", lambda: bad_cases(tier), run_bad, rule="unsupported labels at -label and -label.N"),
         CaseStage("build-glue", lambda: glue_cases(tier), run_glue, disjoint=True,
                   rule="(major,minor,patch) x tweak{absent,6 values} x 8 EXTRAVERSION forms"),
+        CaseStage("unquoted-scalars", [{"text": t, "fmt": f} for t in UNQUOTED for f in ("yaml", "json") if not (f == "json" and not re.fullmatch(r"-?(0|[1-9][0-9]*)(\.[0-9]+)?([eE][+-]?[0-9]+)?", t))],
+                  run_unquoted, rule="18 version texts written without quotes in YAML / as numbers in JSON, through cmd_create.main"),
+        CaseStage("override-keys", lambda: override_cases(tier), run_override,
+                  rule="4 versions x tweak x APP_ROOT_VERSION {absent, 2 values} x APP_ROOT_SEQ_NUM {absent, 2 values} x other manifests' keys x dict/file"),
         CaseStage("sequence-order", [{"lo": i, "hi": min(n4, i + 81)} for i in range(0, n4, 81)], run_seq_order, chunk=1,
                   rule="all ordered pairs of (major,minor,patch,tweak) tuples"),
     ]
